@@ -756,7 +756,8 @@ def prep_samples_post(S, I, variant):
     so = {ids[i]: {"selection_order": sel[i], "serial": i + 1} for i in range(n)}
     perm_m = S.choose("mvr_order", [list(p) for p in itertools.permutations(range(n))])
     perm_c = S.choose("cvr_order", [list(p) for p in itertools.permutations(range(n))])
-    mk = lambda i, tag: Obj(CVRc, {"id": ids[i], "votes": {}, "phantom": False, "pool": False, "tally_pool": None, "sample_num": None,
+    ph = [S.boolean(f"phantom_{i}") for i in range(n)]       # (phantom records are ordinary members of the sample)
+    mk = lambda i, tag: Obj(CVRc, {"id": ids[i], "votes": {}, "phantom": ph[i], "pool": False, "tally_pool": None, "sample_num": None,
                                    "p": None, "sampled": False, "card_in_batch": None, "tag": tag})
     mv = [mk(i, "mvr") for i in perm_m]
     cv = [mk(i, "cvr") for i in perm_c]
